@@ -61,6 +61,14 @@ func checkC08(p *Program, r *Result) {
 	r.rule("C08.c", "Info is populated from every summary table; every summary record kind has a handler", 14)
 	r.rule("C08.d", "Statistics record layout equals the spec", 3)
 	r.rule("C08.t", "every successfully written message is folded into the statistics time range", 2)
+	// Info is read from the summary, which readers find through the footer: Close derives "no summary" from an empty
+	// offsets list
+	r.rule("C08.o", "a summary that was written is reachable: a summary offset is recorded whenever summary records were written (C05.e)", 1)
+	{
+		spec := sinkSpec()
+		isSink := p.scopeFn(spec, p.reachSet(spec))
+		importRule(p, r, "C08.o", func(sub *Result) { checkSummaryOffsetsComplete(p, sub, isSink) }, nil)
+	}
 	checkTimeFoldOnEveryPath(p, r, "C08.t")
 
 	spec := sinkSpec()
